@@ -15,7 +15,7 @@ TEXT = {
  'C18': ('each StringView query enforced against a spec function transcribed from [string.view]; all byte values, all pos/n incl. npos; exceptions as throw events with exact conditions',
          'Bounded: haystack <= 4 bytes, needle <= 3 bytes. find() over view/pointer needles uses fixed-size buffers (reads past the view are caught only if they can change the result).'),
  'C13': ('every DAryHeap / DAryAddressableIntHeap operation enforced from an arbitrary well-formed heap (heap order + handles reflect exactly the contents), membership by ghost key, multiset by ghost value; RadixHeap: IntegerRank, BucketComputation (five facts the radix-heap argument needs) and BitArray for every radix 2..64 x every 8..64-bit key type, and push / top / pop / peak_top_key / clear of the class from an arbitrary well-formed heap (ghost frontier)',
-         'Bounded: d-ary heap size <= 4, key universe 5, arities 2, 3 (quick), 1, 4, 8 (thorough); RadixHeap leaf functions complete (full key width), RadixHeap class with at most 3 keys, int8_t keys radix 2 (quick) / uint8_t keys radix 4 (thorough). sanity_check(), build_heap(range / const vector&), RadixHeap emplace / swap_top_bucket / RadixHeapPair not under contract. Two defects found and repaired (build_heap stale handles 9b4e2b7, bucket index for 8/16-bit keys df180a1).'),
+         'Bounded: d-ary heap size <= 4, key universe 5, arities 2, 3 (quick), 4, 8 (thorough); RadixHeap leaf functions complete (full key width), RadixHeap class with at most 3 keys, int8_t keys radix 2. sanity_check(), build_heap(range / const vector&), RadixHeap emplace / swap_top_bucket / RadixHeapPair not under contract. Two defects found and repaired (build_heap stale handles 9b4e2b7, bucket index for 8/16-bit keys df180a1).'),
  'C11': ('per-call monitor contracts: Semaphore::signal / wait / try_acquire and ThreadBarrierMutex::wait over all size_t values with mutex = ghost flag and condition_variable::wait = havoc of the protected state under the lock',
          'SAFETY FRAGMENT ONLY: the schedule clauses of C11 (no stranded waiter, token conservation and barrier generations as whole-execution properties, ThreadBarrierSpin) are NOT decided by this technique. Bounded: at most 2 wake-ups per blocking call. Known finding: wait(delta, slack) when delta + slack wraps.'),
  'C17': ('every SplayTree operation (insert, erase, exists, find, clear, clear+reuse, destructor, traversal) enforced from an arbitrary valid search tree incl. the empty tree, for set and multiset mode; multiplicity by ghost key, node ledger',
